@@ -143,8 +143,9 @@ def rand_universe(rng, o=None, uid=0):
     for i in range(rng.randint(1, o.max_types)):
         name = 'T%d' % i
         base = None
-        if o.inheritance and types and rng.random() < .3:
-            base = rng.choice([t['name'] for t in types if not t.get('has_xmldata')])
+        bases = [t['name'] for t in types if not t.get('has_xmldata')]
+        if o.inheritance and bases and rng.random() < .3:
+            base = rng.choice(bases)
         fields = []
         has_xmldata = False
         nf = rng.randint(1, o.max_fields)
@@ -188,9 +189,26 @@ def rand_universe(rng, o=None, uid=0):
                 rets = [_strip_occ(rets[0])] if rets else []
                 if rets and ('seq' in rets[0]):
                     rets = [rets[0]['seq']]
-            methods.append({'name': mname, 'args': args, 'returns': rets, 'style': style})
+            md = {'name': mname, 'args': args, 'returns': rets, 'style': style}
+            if o.headers:
+                hc = [t['name'] for t in types if not t.get('has_xmldata')]
+                if hc and rng.random() < .4:
+                    md['in_header'] = rng.choice(hc)
+                if hc and rng.random() < .3:
+                    md['out_header'] = rng.choice(hc)
+                if rng.random() < .3:
+                    md['throws'] = rng.sample(['F0', 'F1'], rng.randint(1, 2))
+            if getattr(o, 'custom_names', False) and style == 'wrapped':
+                if rng.random() < .3:
+                    md['operation_name'] = 'op_%s' % mname
+                if rng.random() < .3 and len(rets) > 1:
+                    md['out_variable_names'] = ['o%d_%s' % (i, mname) for i in range(len(rets))]
+            methods.append(md)
         services.append({'name': 'Svc%d' % s, 'methods': methods})
-    return {'uid': uid, 'tns': nss[0], 'types': types, 'services': services}
+    ir = {'uid': uid, 'tns': nss[0], 'types': types, 'services': services}
+    if o.headers:
+        ir['faults'] = [{'name': 'F0', 'ns': nss[0]}, {'name': 'F1', 'ns': nss[-1]}]
+    return ir
 
 
 def _strip_occ(t):
@@ -267,6 +285,10 @@ class Built(object):
             d = {'__namespace__': td['ns'], '__type_name__': td['name']}
             d['_type_info'] = [(fn, self.spyne_type(ft, field=True)) for fn, ft in td['fields']]
             self.classes[td['name']] = ComplexModelMeta(str('%su%d' % (td['name'], uid)), (base,), d)
+        from spyne.model.fault import Fault
+        self.faults = {}
+        for fd in ir.get('faults', []):
+            self.faults[fd['name']] = type(str(fd['name']), (Fault,), {'__namespace__': fd['ns'], '__type_name__': fd['name']})
         for sd in ir['services']:
             d = {}
             for md in sd['methods']:
@@ -294,9 +316,14 @@ class Built(object):
             kw['_returns'] = [self.spyne_type(r) for r in rets]
         if md['style'] != 'wrapped':
             kw['_body_style'] = md['style']
-        for k in ('_in_header', '_out_header', '_operation_name', '_in_message_name', '_out_variable_names', '_throws'):
+        for k in ('_operation_name', '_in_message_name', '_out_variable_names'):
             if md.get(k[1:]) is not None:
                 kw[k] = md[k[1:]]
+        for k in ('_in_header', '_out_header'):
+            if md.get(k[1:]) is not None:
+                kw[k] = (self.classes[md[k[1:]]],)      # (the decorator asserts a tuple)
+        if md.get('throws'):
+            kw['_throws'] = [self.faults[f] for f in md['throws']]
         return rpc(*params, **kw)(fn)
 
     def app(self, in_protocol, out_protocol, name=None):
